@@ -1298,8 +1298,7 @@ def c11_consistency(spec, S, rep):
                     T if tn in tasks and r in tasks[tn]["assigned"] else F, task=tn, resource=r,
                     assigned=tasks.get(tn, {}).get("assigned"))
         rep.add("C11.no_duplicate_assignment",
-                T if len({tuple(a) for a in lst}) == len(lst) and len({a[0] for a in lst}) == len(lst) else B
-                if len({tuple(a) for a in lst}) == len(lst) else F, resource=r, assignments=lst)
+                T if len({a[0] for a in lst}) == len(lst) else F, resource=r, assignments=lst)
     # unit workers of cumulative workers never under their own name
     for c in spec.get("cumulative", []):
         for u in unit_names(c):
@@ -1337,6 +1336,10 @@ def c11_consistency(spec, S, rep):
             ws = (st + x["start"] * delta) if st is not None else x["start"] * delta
             we = (st + x["end"] * delta) if st is not None else x["end"] * delta
             gs, ge = x.get("start_time_raw"), x.get("end_time_raw")
+            if not x["scheduled"]:
+                # the instants of an unscheduled task carry no meaning
+                rep.add("C11.calendar.unscheduled", B, task=n)
+                continue
             if st is None:
                 # without a start time the library documents durations from 0; the
                 # solution model types these fields as datetimes -> whatever is
